@@ -1,7 +1,7 @@
 """C07 — packet decoders accept exactly the well-formed packets (structural part). DESIGN §4 C07."""
 import ast
 
-from .common import ctx, returns, calls_in_ctx, reach_from_succ, site, srcs_text, escape_check, resolve_call, truthy_label
+from .common import ctx, returns, calls_in_ctx, reach_from_succ, site, srcs_text, escape_check, resolve_call, truthy_label, full_text, alias_text
 from .lvs import raising_edge, cmp_sides
 from ..flow import callee_attr
 from ..loader import AnalysisError, norm, FuncT
@@ -28,9 +28,26 @@ def scan_loop_rules(R, oid):
     P = R.P
     pr = ctx(R, PARSE)
     inst = PARSE + ' :: field search starts at field_pos and stops at the first field of that type'
-    idefs = [v for n in pr.cfg.nodes for (nm, v) in pr.cfg.defs_of(n) if nm == 'i' and isinstance(v, ast.AST)]
-    eqs = [t for t in pr.cfg.nodes if t.kind == 'test' and cmp_sides(t.ast) in (('ret._encoded_fields[i].type_num', ast.Eq, 'typ'), ('typ', ast.Eq, 'ret._encoded_fields[i].type_num'))]
-    if any(ast.unparse(v) == 'field_pos' for v in idefs) and len(eqs) == 1:
+    # the type comparison `<fields>[<idx>].type_num == typ`; <idx> starts at field_pos: `idx = field_pos` before a counting loop, or
+    # `for idx in range(field_pos, len(<fields>))`
+    eqs, starts_ok = [], False
+    for t in pr.cfg.nodes:
+        if t.kind != 'test' or not (isinstance(t.ast, ast.Compare) and len(t.ast.ops) == 1 and isinstance(t.ast.ops[0], ast.Eq)):
+            continue
+        sides = [t.ast.left, t.ast.comparators[0]]
+        tn = [x for x in sides if isinstance(x, ast.Attribute) and x.attr == 'type_num' and isinstance(x.value, ast.Subscript)
+              and alias_text(pr, x.value.value) == 'ret._encoded_fields' and isinstance(x.value.slice, ast.Name)]
+        ty = [x for x in sides if isinstance(x, ast.Name) and x.id == 'typ']
+        if len(tn) == 1 and len(ty) == 1:
+            eqs.append(t)
+            idx = tn[0].value.slice.id
+            for (d, v) in pr.cfg.defs_reaching(t, idx):
+                if isinstance(v, ast.Name) and v.id == 'field_pos':
+                    starts_ok = True
+                elif isinstance(v, tuple) and v and v[0] == 'iter' and isinstance(v[1], ast.Call) and ast.unparse(v[1].func) == 'range' and len(v[1].args) == 2 \
+                        and ast.unparse(v[1].args[0]) == 'field_pos' and alias_text(pr, v[1].args[1]) == 'len(ret._encoded_fields)':
+                    starts_ok = True
+    if starts_ok and len(eqs) == 1:
         R.ok(oid, inst, site(pr, eqs[0].ast))
     else:
         R.fail(oid, inst, PARSE, eqs[0].ast if eqs else 'def parse', 'the search for the field of a received type does not start at the current position '
@@ -64,7 +81,18 @@ def scan_loop_rules(R, oid):
     else:
         R.ok(oid, inst, site(pr, plus[0].ast))
     # critical rule in the not-found branch
-    found_t = [t for t in pr.cfg.nodes if t.kind == 'test' and cmp_sides(t.ast) == ('i', ast.Lt, 'len(ret._encoded_fields)') and isinstance(t.stmt, ast.If)]
+    # "found" test: the search index against the number of fields, either polarity; found_lab = edge taken when a field was found
+    nfields = full_text(pr, ast.parse('len(ret._encoded_fields)', mode='eval').body)
+    found_t, found_lab = [], {}
+    for t in pr.cfg.nodes:
+        if t.kind == 'test' and isinstance(t.stmt, ast.If) and isinstance(t.ast, ast.Compare) and len(t.ast.ops) == 1 \
+                and isinstance(t.ast.left, ast.Name) and t.ast.left.id == 'i' and full_text(pr, t.ast.comparators[0]) == nfields:
+            if isinstance(t.ast.ops[0], ast.Lt):
+                found_t.append(t)
+                found_lab[t.id] = True
+            elif isinstance(t.ast.ops[0], (ast.GtE, ast.Eq)):
+                found_t.append(t)
+                found_lab[t.id] = False
     crit = [t for t in pr.cfg.nodes if t.kind == 'test' and ast.unparse(t.ast) in ('typ & 1 == 1', 'typ & 1', 'typ % 2 == 1', 'typ % 2', 'typ & 1 != 0')]
     ign = [t for t in pr.cfg.nodes if t.kind == 'test' and ast.unparse(t.ast) == 'ignore_critical']
     inst = PARSE + ' :: unknown critical element raises DecodeError, non-critical is skipped'
@@ -78,12 +106,15 @@ def scan_loop_rules(R, oid):
         else:
             r = rs[0]
             # reachable only via: not found (False), odd (True), not ignore (False)
-            for (t, lab, what) in ((found_t[0], False, 'a recognised field'), (crit[0], True, 'a non-critical (even) type'), (ign[0], False, 'ignore_critical=True')):
+            for (t, lab, what) in ((found_t[0], not found_lab[found_t[0].id], 'a recognised field'), (crit[0], True, 'a non-critical (even) type'),
+                                   (ign[0], False, 'ignore_critical=True')):
                 if r.id in pr.cfg.reachable(removed_edges={(t.id, lab)}):
                     probs.append((f'DecodeError can be raised for {what}', r.ast))
             # and it is unavoidable there
-            rr = reach_from_succ(pr.cfg, ign[0], False, follow_exc=False)
-            if any(n.kind != 'raise' for n in pr.cfg.nodes if n.id in rr and n.kind in ('stmt', 'test', 'for')):
+            rm = {(crit[0].id, False), (ign[0].id, True)}
+            rr = (reach_from_succ(pr.cfg, ign[0], False, removed_edges=rm, follow_exc=False) &
+                  reach_from_succ(pr.cfg, crit[0], True, removed_edges=rm, follow_exc=False)) - {crit[0].id, ign[0].id}
+            if any(n.kind != 'raise' for n in pr.cfg.nodes if n.id in rr and n.kind in ('stmt', 'test', 'for')) or r.id not in rr:
                 probs.append(('an unrecognised critical element does not always raise', ign[0].ast))
             if not pr.cfg.path_exists(found_t[0], crit[0]):
                 probs.append(('the critical test is not in the not-found branch', crit[0].ast))
@@ -457,8 +488,12 @@ def run(R):
         R.fail('C07.LOP.1', inst, nd.qual, wt[0].ast if wt else 'def decode', 'the component loop can iterate without consuming input', site(nd, nd.f.node))
     pr = ctx(R, PARSE)
     inst = PARSE + ' :: offset strictly increases'
+    # sizes of the Type / Length numbers just read: second element of parse_tl_num(...)
+    tl_sizes = {e.id for n in pr.cfg.nodes if n.kind == 'stmt' and isinstance(n.ast, ast.Assign) and isinstance(n.ast.value, ast.Call)
+                and ast.unparse(n.ast.value.func).endswith('parse_tl_num') and isinstance(n.ast.targets[0], ast.Tuple) and len(n.ast.targets[0].elts) == 2
+                for e in [n.ast.targets[0].elts[1]] if isinstance(e, ast.Name)}
     adds = [n for n in pr.cfg.nodes if n.kind == 'stmt' and isinstance(n.ast, ast.AugAssign) and ast.unparse(n.ast.target) == 'offset'
-            and ast.unparse(n.ast.value) in ('size_typ', 'size_len')]
+            and isinstance(n.ast.op, ast.Add) and isinstance(n.ast.value, ast.Name) and n.ast.value.id in tl_sizes]
     lt = [t for t in pr.cfg.nodes if t.kind == 'test' and cmp_sides(t.ast) == ('offset', ast.Lt, 'len(wire)')]
     if len(lt) == 1 and len(adds) >= 2 and lt[0].id not in reach_from_succ(pr.cfg, lt[0], True, removed_nodes={adds[0].id}, follow_exc=False):
         R.ok('C07.LOP.1', inst, site(pr, adds[0].ast), 'size_typ in {1,3,5,9}')
